@@ -148,7 +148,7 @@ func (p *wat2arm64Worker) buildTable(w io.Writer) error {
 					} else {
 						hi20 := uint32(x) >> 12
 						lo12 := uint32(x) & 0xFFF
-						fmt.Fprintf(w, "    lu12i.w   $t1, 0x%X\n # offset", hi20)
+						fmt.Fprintf(w, "    lu12i.w   $t1, 0x%X # offset\n", hi20)
 						fmt.Fprintf(w, "    ori       $t1, $t1, 0x%X\n", lo12)
 					}
 
@@ -158,7 +158,7 @@ func (p *wat2arm64Worker) buildTable(w io.Writer) error {
 					} else {
 						hi20 := uint32(x) >> 12
 						lo12 := uint32(x) & 0xFFF
-						fmt.Fprintf(w, "    lu12i.w   $t2, 0x%X\n # func index", hi20)
+						fmt.Fprintf(w, "    lu12i.w   $t2, 0x%X # func index\n", hi20)
 						fmt.Fprintf(w, "    ori       $t2, $t2, 0x%X\n", lo12)
 					}
 
